@@ -44,6 +44,11 @@ type Base struct {
 // SolveRHS returns a point whose x^3 + 7, in Montgomery form, is the largest value <= target for which a point exists.
 func SolveRHS(target *big.Int) (ref.Point, bool) {
 	t := new(big.Int).Mod(target, ref.P)
+	// a target whose low limb is all zeros or all ones keeps that limb: the search then walks the upper limbs
+	step := big.NewInt(1)
+	if low := new(big.Int).And(t, new(big.Int).SetUint64(^uint64(0))); low.Sign() == 0 || low.IsUint64() && low.Uint64() == ^uint64(0) {
+		step = new(big.Int).Lsh(one, 64)
+	}
 	for i := 0; i < 400; i++ {
 		v := new(big.Int).Mod(new(big.Int).Mul(t, rPInv), ref.P) // canonical value whose Montgomery form is t
 		if ref.IsSquare(v) {
@@ -53,7 +58,7 @@ func SolveRHS(target *big.Int) (ref.Point, bool) {
 				}
 			}
 		}
-		t.Sub(t, one)
+		t.Sub(t, step)
 		if t.Sign() < 0 {
 			t.Add(t, ref.P)
 		}
@@ -111,6 +116,18 @@ func (b Base) Point() ref.Point {
 			}
 			x.Add(x, one)
 			x.Mod(x, ref.P)
+		}
+	case "lifty":
+		// a point with a chosen ORDINATE: the first y >= X (mod p) for which x = cbrt(y^2 - 7) exists (y = 1, -1, the cube roots of
+		// unity, small multiplicative orders: where powers of y return to 1)
+		y := new(big.Int).Mod(gen.B(b.X), ref.P)
+		p = ref.G()
+		for i := 0; i < 400; i++ {
+			if x := cubeRootP(new(big.Int).Mod(new(big.Int).Sub(new(big.Int).Mul(y, y), big.NewInt(7)), ref.P)); x != nil && y.Sign() != 0 {
+				p = ref.Point{X: x, Y: new(big.Int).Set(y)}
+				break
+			}
+			y.Add(y, one).Mod(y, ref.P)
 		}
 	case "rhs":
 		q, ok := SolveRHS(gen.B(b.RHS))
@@ -647,6 +664,10 @@ func BaseGen() *rapid.Generator[Base] {
 		b.ZeroRecv = !b.Reuse && gen.Chance(t, "zeroRecv", 1, 5)
 		if gen.Chance(t, "home", 1, 6) {
 			b.Home = 1 + gen.Pick(t, "homeKind", 3)
+		}
+		if gen.Chance(t, "lifty", 1, 12) {
+			b.Kind = "lifty"
+			b.X = gen.H(gen.Int(ref.P).Draw(t, "y"))
 		}
 		if gen.Chance(t, "rhs", 1, 12) {
 			// the Montgomery limbs of x^3 + 7: just below p, or a boundary-biased value
